@@ -268,4 +268,14 @@ StoreAfterExplanation == [][(stored' = stored + 1) => (pc = "store" /\ (seen = 0
 \* an observation is never part of its own background: every drawn row arrived in an earlier call
 NeverOwnBackground == pc \in {"draw", "imodel", "lossfeat", "impute"} => stored = 0
 SeenCountsReturns == [][(outcome' = "ok" /\ outcome # "ok") => seen' = seen + 1]_vars
+
+(* ---- liveness (checked under weak fairness of the steps of a running call; callbacks terminate) ---- *)
+\* every step except the environment's decision to make another call
+InCall == pc # "idle"
+CallStep == InCall /\ Next
+FairSpec == Spec /\ WF_vars(CallStep)
+\* an explain_one call that was entered eventually returns or raises: no step of the call waits for anything
+CallTerminates == InCall ~> ~InCall
+\* ... and a call that returns was counted and, when asked to, stored (progress, not only safety)
+ReturnCounts == [](outcome = "running" => <>(outcome \in {"ok", "exc"}))
 =============================================================================
